@@ -45,6 +45,7 @@ type retPoint struct {
 
 type Frame struct {
 	fn       *ssa.Function
+	hypIDs   map[*ssa.BasicBlock]int // staged loops: id of the loop at each header
 	spec     *FuncSpec
 	vals     map[ssa.Value]*Val
 	parent   *Frame
@@ -755,9 +756,20 @@ func (vc *VC) enterLoop(fr *Frame, li *loopInfo, phiIn map[*ssa.Phi]*Val) {
 	names = vc.loopNames(fr, li, phiIn)
 	vc.localNames(fr, li.header, names)
 	env = vc.specEnv(fr, names)
-	for _, inv := range ls.Invariants {
+	if ls.Staged {
+		vc.hypLoops++
+		if fr.hypIDs == nil {
+			fr.hypIDs = map[*ssa.BasicBlock]int{}
+		}
+		fr.hypIDs[li.header] = vc.hypLoops
+	}
+	for i, inv := range ls.Invariants {
 		if t, ok := vc.evalBool(inv, env); ok {
+			if ls.Staged {
+				vc.curHyp = hypTag{loop: fr.hypIDs[li.header], idx: i + 1}
+			}
 			vc.assume(t)
+			vc.curHyp = hypTag{}
 		}
 	}
 }
@@ -817,7 +829,11 @@ func (vc *VC) backEdge(fr *Frame, from, header *ssa.BasicBlock) {
 	for i, inv0 := range ls.Invariants {
 		for _, inv := range conjuncts(inv0) {
 			if t, ok := vc.evalBool(inv, env); ok {
+				n := len(vc.obls)
 				vc.oblige("loop-preserve", vc.clauseLabel(fmt.Sprintf("loop%d:%d", li.ordinal, i+1), inv, i), t, pos, "loop invariant is preserved: "+inv.Src)
+				if ls.Staged && len(vc.obls) > n {
+					vc.obls[len(vc.obls)-1].Hyp = hypTag{loop: fr.hypIDs[header], idx: i + 1}
+				}
 			}
 		}
 	}
